@@ -358,5 +358,117 @@ theorem run_attrs (n : Nat) : ∀ (rest : List UInt8), rest.length ≤ n →
           have hr := ih rest hlen' (.valueUnquoted nr tps) (p + 1) 39 true cq tps (some (valueless nr)) as hdrop' ⟨hq, rfl, rfl, rfl, rfl⟩ t hfin
           exact Reaches.step (step39_other hok hb (isWs_false hws') hb62) (Nat.lt_succ_self p) hr
 
+omit hok in
+/-- the spec never changes the tag name once the attribute states are entered -/
+theorem attrs_name (rest : List UInt8) : ∀ (acc : List AttrOutline) (st : St) (p : Nat) (t : Tag),
+    attrs nm acc st rest p = .finished t → t.name = nm := by
+  induction rest with
+  | nil => intro acc st p t h; cases st <;> simp [attrs] at h
+  | cons b rest ih =>
+    intro acc st p t h
+    cases st <;> simp only [attrs] at h <;>
+      (repeat' split at h) <;>
+      first
+        | exact ih _ _ _ _ h
+        | (simp only [Res.finished.injEq] at h; subst h; rfl)
+
+omit hok in
+theorem slice_snoc {inp : Bytes} {s p : Nat} {b : UInt8} (hs : s ≤ p) (hb : inp[p]? = some b) :
+    slice inp s (p + 1) = slice inp s p ++ [b] := by
+  have hlt : p < inp.length := by
+    rcases Nat.lt_or_ge p inp.length with h | h
+    · exact h
+    · rw [List.getElem?_eq_none h] at hb; simp at hb
+  unfold slice
+  rw [List.take_add_one, hb]
+  simp only [Option.toList_some]
+  rw [List.drop_append_of_le_length (by rw [List.length_take]; omega)]
+
+/-- **The tag name loop**, then the attribute loop. -/
+theorem run_tagName (start : Nat) (n : Nat) : ∀ (rest : List UInt8), rest.length ≤ n →
+    ∀ (p : Nat) (en : Bool) (cq : UInt8) (cattr : Option AttrOutline) (nm0 : Range) (hh : Nat),
+    inp.drop p = rest → (cq = 34 ∨ cq = 39) → start ≤ p → hh = NameHash.ofBytes (slice inp start p) →
+    ∀ t, tagName start rest p = .finished t →
+    Reaches env inp F (NameHash.ofBytes (slice inp t.name.start t.name.end)) t p
+      (mach F p 31 en cq start (some (.startTag nm0 hh .html [] false)) cattr) := by
+  induction n with
+  | zero =>
+    intro rest hlen p en cq cattr nm0 hh _ _ _ _ t hfin
+    have : rest = [] := by cases rest <;> simp_all
+    subst this
+    simp [tagName] at hfin
+  | succ n ih =>
+    intro rest hlen p en cq cattr nm0 hh hdrop hq hsp hhh t hfin
+    cases rest with
+    | nil => simp [tagName] at hfin
+    | cons b rest =>
+    obtain ⟨hb, hdrop'⟩ := drop_cons_facts hdrop
+    have hlen' : rest.length ≤ n := by simp at hlen; omega
+    simp only [tagName] at hfin
+    by_cases hws : isWs b = true
+    · rw [if_pos hws] at hfin
+      have hname := attrs_name ⟨start, p⟩ rest _ _ _ _ hfin
+      have hr := run_attrs hok F ⟨start, p⟩ hh rest.length rest (Nat.le_refl _) (.beforeAttrName false) (p + 1) 33 false cq start
+        cattr [] hdrop' ⟨hq, by simp⟩ t hfin
+      rw [hname]
+      simp only
+      rw [← hhh]
+      exact Reaches.step (step31_ws hok hb (isWs_true hws)) (Nat.lt_succ_self p) hr
+    · have hws' : isWs b = false := by simpa using hws
+      rw [if_neg hws] at hfin
+      by_cases h47 : (b == 47) = true
+      · rw [if_pos h47] at hfin
+        have hb47 : b = 47 := by simpa using h47
+        subst hb47
+        have hname := attrs_name ⟨start, p⟩ rest _ _ _ _ hfin
+        have hr := run_attrs hok F ⟨start, p⟩ hh rest.length rest (Nat.le_refl _) (.beforeAttrName true) (p + 1) 32 false cq start
+          cattr [] hdrop' ⟨hq, by simp⟩ t hfin
+        rw [hname]
+        simp only
+        rw [← hhh]
+        exact Reaches.step (step31_slash hok hb) (Nat.lt_succ_self p) hr
+      · rw [if_neg h47] at hfin
+        have hb47 : ¬b = 47 := by simpa using h47
+        by_cases h62 : (b == 62) = true
+        · rw [if_pos h62] at hfin
+          have hb62 : b = 62 := by simpa using h62
+          subst hb62
+          simp only [Res.finished.injEq] at hfin
+          subst hfin
+          simp only
+          rw [← hhh]
+          exact Reaches.final (step31_gt hok hb) ⟨rfl, rfl, rfl, rfl, rfl, rfl, rfl, rfl, rfl⟩ (Or.inl rfl) (Nat.lt_succ_self p)
+        · rw [if_neg h62] at hfin
+          have hb62 : ¬b = 62 := by simpa using h62
+          have hr := ih rest hlen' (p + 1) en cq cattr nm0 (NameHash.update hh b) hdrop' hq (by omega)
+            (by rw [slice_snoc hsp hb, hhh]; simp [NameHash.ofBytes, List.foldl_append]) t hfin
+          exact Reaches.step (step31_other hok hb (isWs_false hws') hb62 hb47) (Nat.lt_succ_self p) hr
+
+/-- **From the data state at `<`** (no pending text) to `emit_tag`. -/
+theorem run_startTag (i : Nat) (hls : F.ls = i) (en : Bool) (cq : UInt8) (hq : cq = 34 ∨ cq = 39) (tps : Nat)
+    (ct : Option TagOutline) (cattr : Option AttrOutline) (t : Tag)
+    (hspec : startTagAt inp i = some (.finished t)) :
+    Reaches env inp F (NameHash.ofBytes (slice inp t.name.start t.name.end)) t i (mach F i 2 en cq tps ct cattr) := by
+  unfold startTagAt at hspec
+  split at hspec
+  · rename_i b rest hdrop
+    split at hspec
+    · rename_i halpha
+      simp only [Option.some.injEq] at hspec
+      obtain ⟨hb0, hdrop1⟩ := drop_cons_facts hdrop
+      obtain ⟨hb1, hdrop2⟩ := drop_cons_facts hdrop1
+      have hr := run_tagName hok F (i + 1) rest.length rest (Nat.le_refl _) (i + 2) false cq cattr .default
+        (NameHash.update NameHash.new b) hdrop2 hq (by omega)
+        (by rw [show i + 2 = (i + 1) + 1 by omega, slice_snoc (Nat.le_refl _) hb1]
+            simp [slice, NameHash.ofBytes]) t hspec
+      have h1 := step2_lt hok (inp := inp) (p := i) (il := F.il) (en := en) (ca := F.ca) (lsh := F.lsh) (cq := cq)
+        (ltt := F.ltt) (x := F.x) (l := ⟨F.ls, tps, ct, F.cnt, cattr, F.fd⟩) hb0 hls
+      have h2 := step28_alpha hok (inp := inp) (p := i + 1) (il := F.il) (en := false) (ca := F.ca) (lsh := F.lsh)
+        (cq := cq) (ltt := F.ltt) (ls := F.ls) (tps := tps) (ct := ct) (cnt := F.cnt) (cattr := cattr) (fd := F.fd)
+        (x := F.x) hb1 halpha
+      exact Reaches.step h1 (Nat.lt_succ_self i) (Reaches.step h2 (Nat.lt_succ_self (i + 1)) hr)
+    · simp at hspec
+  · simp at hspec
+
 end
 end LolHtml.Model.TagStates
